@@ -21,9 +21,12 @@ def run(ctx):
         f_vox2 = None if quick else ex.submit(ve.emit, ctx, (3, 3, 3), 12, 8, 40, 12)
         f_c1 = ex.submit(cd.emit, ctx, "U12", 5 if quick else 7, points=True)
         f_c2 = ex.submit(cd.emit, ctx, "E21", 14, simulate=3 if quick else 40, depth=11, minpts=7, points=True)
+        f_c3 = ex.submit(cd.emit, ctx, "Spike", 5, minpts=5, points=True)
+        f_c4 = ex.submit(cd.emit, ctx, "SkewSpike", 4, minpts=4, points=True)
         f_t1.result()
         recs = f_vox.result() + (f_vox2.result() if f_vox2 else [])
-        crecs = f_c1.result() + f_c2.result()
+        spikes = f_c3.result() + f_c4.result()
+        crecs = f_c1.result() + f_c2.result() + spikes
     if quick:      # all solids are model-checked; a seeded sample (all 5-cell non-box shapes first) is replayed
         import random
         rnd = random.Random(ctx.seed)
@@ -31,7 +34,18 @@ def run(ctx):
         recs.sort(key=lambda r: -r["vol"])
         recs = recs[:300]
     ve.replay(ctx, ve.build_cases(recs, ["inside"], ctx.tier, ctx.seed, 1 if quick else 5))
-    cd.replay(ctx, cd.build_cases(crecs, ["inside"], ctx.tier, ctx.seed, 1 if quick else 5, n_perms=0))
+    ccases = cd.build_cases(crecs, ["inside"], ctx.tier, ctx.seed, 1 if quick else 5, n_perms=0)
+    # the origin between the centroid and the farthest vertex (pre-filters must measure distances from the right point), and
+    # the origin at the centroid and at a vertex
+    from fractions import Fraction as F
+    from ..placement import Placement
+    for r in (crecs if not quick else spikes + crecs[::7]):
+        c = [F(x, 4 * r["vol6"]) for x in r["cen24"]]
+        far = max(r["v"], key=lambda v: sum((F(v[i]) - c[i]) ** 2 for i in range(3)))
+        for name, t in (("origin_between_centroid_and_far_vertex", [-(c[i] + far[i]) / 2 for i in range(3)]),
+                        ("origin_at_centroid", [-c[i] for i in range(3)]), ("origin_at_far_vertex", [-F(far[i]) for i in range(3)])):
+            ccases.append({"rec": r, "pl": Placement(t=tuple(t), name=name).to_json(), "perm": None, "which": ["inside"]})
+    cd.replay(ctx, ccases)
     curved_eval.run_inside3d(ctx)
     from .. import sphero_eval
     sphero_eval.run_inside(ctx)
